@@ -851,6 +851,86 @@ fn fields_in_order(debug: &str, fields: &str) -> Option<String> {
     None
 }
 
+/// Top-level `name: value` pairs of a derived `Debug` rendering of a struct.
+fn top_level_fields(debug: &str) -> Vec<(String, String)> {
+    let open = match debug.find('{') {
+        Some(i) => i,
+        None => return Vec::new(),
+    };
+    let body = &debug[open + 1..debug.rfind('}').unwrap_or(debug.len())];
+    let mut parts = Vec::new();
+    let (mut depth, mut in_str, mut esc, mut start) = (0i32, false, false, 0usize);
+    let bytes = body.as_bytes();
+    for (i, &c) in bytes.iter().enumerate() {
+        if in_str {
+            if esc {
+                esc = false;
+            } else if c == b'\\' {
+                esc = true;
+            } else if c == b'"' {
+                in_str = false;
+            }
+            continue;
+        }
+        match c {
+            b'"' => in_str = true,
+            b'(' | b'[' | b'{' => depth += 1,
+            b')' | b']' | b'}' => depth -= 1,
+            b',' if depth == 0 => {
+                parts.push(&body[start..i]);
+                start = i + 1;
+            }
+            _ => {}
+        }
+    }
+    parts.push(&body[start..]);
+    parts.iter().filter_map(|p| p.trim().split_once(": ").map(|(a, b)| (a.trim().to_string(), b.trim().to_string()))).collect()
+}
+
+/// The descriptions allow optional members at the end only, so a message can
+/// lack a suffix of them: a present optional after an absent one is a layout
+/// no description contains.
+fn optional_prefix_violation(debug: &str) -> Option<String> {
+    let mut absent: Option<String> = None;
+    for (name, value) in top_level_fields(debug) {
+        if value == "None" {
+            absent.get_or_insert(name);
+        } else if value.starts_with("Some(") {
+            if let Some(a) = &absent {
+                return Some(format!("{} present although {} is absent", name, a));
+            }
+        }
+    }
+    None
+}
+
+/// Every proper prefix of a codec's typical encoding: decoding returns (no
+/// panic), and whatever is accepted has its optional members as a prefix.
+fn check_truncations(ctx: &mut Ctx, crate_ix: usize, c: &Codec) {
+    let base = unhex(&c.base);
+    for cut in 0..base.len() {
+        check_truncation(ctx, crate_ix, c.kind, &c.name, &base[..cut]);
+    }
+}
+
+fn check_truncation(ctx: &mut Ctx, crate_ix: usize, kind: Kind, name: &str, bytes: &[u8]) {
+    let crate_name = SPECS[crate_ix].0;
+    let site = site_of(crate_ix, kind, name);
+    let case_data = json!({"truncated_bytes": hex(bytes), "crate_ix": crate_ix, "kind": kind.name(), "codec": name});
+    ctx.count("typical_truncations_decoded", 1);
+    match catch(|| api_msg(crate_ix, kind, bytes, false)) {
+        Err(p) => ctx.panic_violation(&format!("decode|{}", site), "truncated-typical", &p, case_data),
+        Ok(o) => {
+            if let Ok(d) = &o.result {
+                ctx.count("typical_truncations_accepted", 1);
+                if let Some(what) = optional_prefix_violation(&d.debug) {
+                    ctx.violation("accepted", &format!("crate={}|{}={}", crate_name, d.variant, d.name), "optional-present-after-absent|truncated-typical", json!({"what": what, "decoded": short(&d.debug)}), case_data);
+                }
+            }
+        }
+    }
+}
+
 fn codec_key(c: &Codec) -> String {
     format!("{}:{}", c.kind.name(), c.name)
 }
@@ -862,7 +942,10 @@ fn codec_base_phase(ctx: &mut Ctx, data: &[Option<SpecData>]) {
         return;
     }
     if let Some(r) = ctx.replay.clone() {
-        if r["case_data"]["payload"].is_string() {
+        if r["case_data"]["truncated_bytes"].is_string() {
+            let cd = &r["case_data"];
+            check_truncation(ctx, cd["crate_ix"].as_u64().unwrap() as usize, Kind::parse(cd["kind"].as_str().unwrap()), cd["codec"].as_str().unwrap(), &unhex(cd["truncated_bytes"].as_str().unwrap()));
+        } else if r["case_data"]["payload"].is_string() {
             let v = Vector::from_case_data(&r["case_data"]);
             check_vector(ctx, &v);
         } else {
@@ -912,6 +995,9 @@ fn codec_base_phase(ctx: &mut Ctx, data: &[Option<SpecData>]) {
                 ctx.seen(&format!("codecs_{}", SPECS[crate_ix].0), &codec_key(c));
             }
             ctx.case(Some(fnv1a(format!("base|{}|{}", crate_ix, codec_key(c)).as_bytes())));
+            if c.kind != Kind::Object {
+                check_truncations(ctx, crate_ix, c);
+            }
             if c.kind == Kind::Object {
                 if let (Some(Tid::Ordinal(o)), Some(n)) = (parse_tid(&c.id), c.nwords) {
                     described_sizes.insert(o, (n, c.name.clone()));
@@ -1211,6 +1297,10 @@ fn random_case(ctx: &mut Ctx, rng: &mut Rng, data: &[Option<SpecData>]) {
                 Ok(d) => {
                     ctx.count("random_decode_ok", 1);
                     ctx.seen(&format!("random_decoded_{}", crate_name), &format!("{}:{}", d.variant, d.name));
+                    if let Some(what) = optional_prefix_violation(&d.debug) {
+                        ctx.violation("accepted", &format!("crate={}|{}={}", crate_name, d.variant, d.name), &format!("optional-present-after-absent|random|{}", mode),
+                            json!({"what": what, "decoded": short(&d.debug)}), case_data.clone());
+                    }
                     if c.kind != Kind::Connless {
                         if let Some(id) = varint::decode(&bytes) {
                             if id.value < 0 && !id.padding_nonzero {
